@@ -14,7 +14,7 @@ import json
 import math
 import operator
 
-from harness import common, gen, sigs, containers as C
+from harness import common, gen, sigs, sexp_types, containers as C
 
 from pyasn1 import error
 from pyasn1.type import univ, char, useful, base
@@ -477,6 +477,72 @@ def readers_case(rep, r, t, v, label):
     rep.corr_checked += 0
 
 
+def mutate_nested(r, t, obj):
+    """change some nested constructed component of `obj` in place; returns a description or None"""
+    subs = [(st, so, path) for st, so, path in nested_objects(t, obj) if path]
+    r.shuffle(subs)
+    for st, so, path in subs:
+        k = gen.base_of(st)[0]
+        try:
+            if k in ('seqof', 'setof'):
+                if len(so):
+                    so.clear()
+                    return 'clear() at %s' % list(path)
+                so.append(gen.build_value(gen.base_of(st)[1], gen.Gen(r, max_depth=1).val(gen.base_of(st)[1])))
+                return 'append() at %s' % list(path)
+            if k in ('seq', 'set'):
+                if so._componentValues:
+                    so.clear()
+                    return 'clear() at %s' % list(path)
+            if k == 'choice':
+                so.clear()
+                return 'clear() at %s' % list(path)
+        except Exception:  # noqa
+            continue
+    return None
+
+
+def clone_case(rep, r, t, v):
+    """clone(cloneValueFlag=True) has the content of the original and shares nothing mutable with it"""
+    if gen.base_of(t)[0] not in ('seq', 'set', 'seqof', 'setof', 'choice'):
+        return
+    replay = {'kind': 'clone', 'type': gen.ty_sexp(t), 'value': gen.val_sexp(v)}
+    try:
+        obj = gen.build_value(t, v)
+    except Exception:  # noqa
+        return
+    s0 = snapshot(t, obj)
+    if s0['abs'].startswith('err'):
+        return
+    try:
+        c = obj.clone(cloneValueFlag=True)
+    except Exception as e:  # noqa
+        rep.fail('clone-' + type(e).__name__, 'clone(cloneValueFlag=True) raised %s: %s' % (type(e).__name__, e), replay)
+        return
+    sc = snapshot(t, c)
+    for key in ('abs', 'ber', 'der', 'cer'):
+        if sc[key] != s0[key]:
+            sig = 'clone-differs-' + key
+            if key != 'abs' and sigs.has_constructed_default(t):
+                sig = 'T11-default-of-constructed-type'
+            rep.fail(sig, 'the clone differs in %s: %s vs %s' % (key, sc[key][:120], s0[key][:120]), replay)
+            return
+    for which in ('clone', 'original'):
+        o2 = gen.build_value(t, v)
+        c2 = o2.clone(cloneValueFlag=True)
+        victim, other = (c2, o2) if which == 'clone' else (o2, c2)
+        so = snapshot(t, other)
+        what = mutate_nested(r, t, victim)
+        if what is None:
+            return
+        now = snapshot(t, other)
+        for key in ('abs', 'ber', 'der', 'cer'):
+            if now[key] != so[key]:
+                rep.fail('clone-shares-components', 'changing the %s (%s) changed the other object: %s %s -> %s' % (
+                    which, what, key, so[key][:120], now[key][:120]), dict(replay, mutated=which, how=what))
+                return
+
+
 # ----------------------------------------------------------------------------- schema scalars
 
 SCALAR_CLASSES = [univ.Integer, univ.Boolean, univ.Enumerated, univ.BitString, univ.OctetString, univ.Null,
@@ -580,6 +646,13 @@ READER_CORPUS = [
     # clone(cloneValueFlag=True) after a read touched an absent OPTIONAL SEQUENCE OF
     ('(seq (r int) (o (seqof int)))', '(seq (i 1) absent)'),
     ('(seq (r int) (o (setof (seq (o int)))) (o (choice (r int) (r bool))))', '(seq (i 1) absent absent)'),
+]
+
+
+CLONE_CORPUS = [
+    ('(seq (r int) (r (seqof int)) (o (seq (r bool))))', '(seq (i 1) (of (i 2) (i 3)) (seq (b 1)))'),
+    ('(seqof (set (r (tag i c 0 int)) (o (tag i c 1 (seqof null)))))', '(of (seq (i 1) (of null)) (seq (i 2) absent))'),
+    ('(choice (r (tag i c 0 int)) (r (tag e c 1 (seqof (seq (r int))))))', '(ch 1 (of (seq (i 5))))'),
 ]
 
 
@@ -720,12 +793,17 @@ def run(rep, tier, seed):
         rep.case('corpus ' + head + ' ' + ops_s, nontrivial=True)
         run_history(rep, drv, kind, ops)
     for ts, vs in READER_CORPUS:
-        from harness import sexp_types
         t = sexp_types.ty_of_sexp(gen.parse_sexps(ts)[0])
         v = gen.val_of_sexp(gen.parse_sexps(vs)[0])
         rep.case('corpus readers ' + ts + ' ' + vs, nontrivial=True)
         for k in range(6):
             readers_case(rep, common.rng_for(seed, 'C19r', k), t, v, 'corpus')
+    for ts, vs in CLONE_CORPUS:
+        t = sexp_types.ty_of_sexp(gen.parse_sexps(ts)[0])
+        v = gen.val_of_sexp(gen.parse_sexps(vs)[0])
+        rep.case('corpus clone ' + ts + ' ' + vs, nontrivial=True)
+        for k in range(4):
+            clone_case(rep, common.rng_for(seed, 'C19c', k), t, v)
     schema_scalar_checks(rep)
     ks = kinds()
     for i in range(n_hist):
@@ -756,6 +834,7 @@ def run(rep, tier, seed):
         rep.case('readers ' + gen.ty_sexp(t) + ' ' + gen.val_sexp(v), nontrivial=gen.depth(t) >= 2)
         rep.count('readers')
         readers_case(rep, rng, t, v, 'gen')
+        clone_case(rep, rng, t, v)
     post_shrink(rep, drv)
     drv.close()
 
@@ -772,12 +851,12 @@ def replay(path):
         if r.get('kind', '').startswith('HIST'):
             kind = kind_of(r['kind'])
             run_history(col, drv, kind, parse_ops(' '.join(r['ops']), kind))
-        elif r.get('kind') == 'readers':
-            from harness import sexp_types
+        elif r.get('kind') in ('readers', 'clone'):
             t = sexp_types.ty_of_sexp(gen.parse_sexps(r['type'])[0])
             v = gen.val_of_sexp(gen.parse_sexps(r['value'])[0])
             for k in range(10):
                 readers_case(col, common.rng_for(k, 'replay'), t, v, 'replay')
+                clone_case(col, common.rng_for(k, 'replay'), t, v)
         elif r.get('kind') in ('schema-scalar', 'novalue'):
             schema_scalar_checks(col)
         bad = [x for x in col.failures if x['signature'] == f['signature']]
